@@ -82,6 +82,9 @@ OK(ns, i, ctx) ==
                                   /\ \A j \in {1} \cup {2 * q + 1 : q \in 1..Len(n.avkeys)} :
                                         j <= Len(n.kids) =>
                                           ~Contains(ns, n.kids[j], "bioDraws") /\ ~Contains(ns, n.kids[j], "RandomVariable")
+    \* logit given by separate key lists: kids = <<choice, utilities (one per key), availabilities (one per avkey)>>;
+    \* valid iff the two key SETS coincide (neither may have an extra alternative)
+    [] n.op = "_bioLogLogitKeys" -> /\ SeqToSet(n.keys) = SeqToSet(n.avkeys) /\ Kids(ctx)
     [] n.op = "_bioLogLogitFullChoiceSet" ->
                                   /\ Kids(ctx)
                                   /\ ~Contains(ns, n.kids[1], "bioDraws") /\ ~Contains(ns, n.kids[1], "RandomVariable")
@@ -112,7 +115,7 @@ AllOpNames == <<"UnaryMinus", "exp", "sin", "cos", "bioNormalCdf", "PowerConstan
                 "bioMin", "bioMax", "And", "Or", "Equal", "NotEqual", "LessOrEqual", "GreaterOrEqual", "Less",
                 "Greater", "bioMultSum", "BelongsTo", "Elem", "ConditionalSum", "bioLinearUtility", "_bioLogLogit",
                 "_bioLogLogitFullChoiceSet", "MonteCarlo", "Integrate", "PanelLikelihoodTrajectory", "Catalog",
-                "_bioLogLogitBadKeys">>
+                "_bioLogLogitBadKeys", "_bioLogLogitKeys">>
 IndexOf(s, x) == CHOOSE i \in 1..Len(s) : s[i] = x
 RECURSIVE HashSeq(_, _)
 HashSeq(sq, acc) == IF sq = << >> THEN acc ELSE HashSeq(Tail(sq), (acc * 31 + Head(sq) + 7) % 1000003)
@@ -156,6 +159,8 @@ AddOp == CanAdd /\
           Try(Node("_bioLogLogit", <<ch, u1, av, u2, av>>, "", <<1, 3>>, <<1, 3>>))
     \/ "_bioLogLogitBadKeys" \in Special /\ \E ch \in KeyLeaves, u1, u2 \in Idx :
           Try(Node("_bioLogLogit", <<ch, u1, 1, u2, 1>>, "", <<1, 3>>, <<1, 2>>))
+    \/ "_bioLogLogitKeys" \in Special /\ \E ch \in KeyLeaves, u \in Idx, ak \in {<<1, 3>>, <<3, 1>>, <<1, 3, 2>>, <<1>>, <<1, 2>>} :
+          Try(Node("_bioLogLogitKeys", <<ch, u, u>> \o [j \in 1..Len(ak) |-> 1], "", <<1, 3>>, ak))
     \/ "_bioLogLogitFullChoiceSet" \in Special /\ \E ch \in KeySlot, u1, u2 \in Idx :
           Try(Node("_bioLogLogitFullChoiceSet", <<ch, u1, u2>>, "", <<1, 3>>, << >>))
     \* a catalog delegates to its selected (first) member; the unselected member is kept benign
@@ -175,7 +180,8 @@ Root == Len(nodes)
 FaultFreeValid == done /\ ~(Panel /\ Estimation) =>
     ((\A i \in Reach(nodes, Root) :
          i \notin FaultLeaves /\ nodes[i].op \notin {"MonteCarlo", "Integrate", "PanelLikelihoodTrajectory"}
-         /\ (nodes[i].op = "_bioLogLogit" => nodes[i].keys = nodes[i].avkeys))
+         /\ (nodes[i].op = "_bioLogLogit" => nodes[i].keys = nodes[i].avkeys)
+         /\ (nodes[i].op = "_bioLogLogitKeys" => SeqToSet(nodes[i].keys) = SeqToSet(nodes[i].avkeys)))
      => Valid(nodes, Root))
 \* an unknown column or a clashing name is a fault wherever it sits
 LeafFaultAlwaysInvalid == done =>
